@@ -86,7 +86,7 @@ SPEC = {
     "search_n": 10000,
     "runner_timeout": 3000,
     "rule": ("one case = one seeded history against a fresh mock cluster (1-3 nodes, with/without the metadata-id "
-             "extension, a fifth of the multi-node clusters MIXED, 1-3 prepared statements with 2-4 schema versions each) and a real Session: 4-15 ops (client calls, node events, forced answers, concurrency markers; about 5.7 client calls per history) out of "
+             "extension, a fifth of the multi-node clusters MIXED (there the nodes without the extension are at schema version 1 when Session::prepare runs, and the column specs of the fresh statements are recorded, so that the driver knows which kind of node each initial cell came from), 1-3 prepared statements with 2-4 schema versions each) and a real Session: 4-15 ops (client calls, node events, forced answers, concurrency markers; about 5.7 client calls per history) out of "
              "execute / single-page execute / execute_iter (pager, 1-3 pages) / batch / pairs of CONCURRENT executes on two nodes (random node, use_cached_result_metadata, consistency, serial "
              "consistency, timestamp, page size, paging state) and node events {evicted, schema-changed, prepared, "
              "id-changing}; about a sixth of the histories additionally force arbitrary (ill-behaved) answers. "
